@@ -173,7 +173,7 @@ fn check_seq(ctx: &Ctx, stream: &str, idx: u64, cfg: &WCfg, seq: &[Entry], kind:
 }
 
 pub fn run(ctx: &Ctx) -> i32 {
-    let n = ctx.n(100_000, 2_000_000);
+    let n = ctx.n(100_000, 10_000_000);
     ctx.par("perturbed", n, true, |idx, rng| {
         let mut cfg = gen::gen_cfg(rng, true);
         cfg.block_size = Some(*rng.pick(&[0usize, 1024, 1024, 1024, 1500, 2048]));
